@@ -29,3 +29,18 @@ func init() {
 		RealStub: map[string]string{"d2cli.Run (flag parsing, fmt, compile, dagre layout, render, Write)": "real, in-process", "os / syscall layer": "real, with fault points at the syscall wrappers (std overlay)", "kernel file system": "real (tmp sandbox per scenario)", "process death": "simulated by crash-freeze; cross-checked against real SIGKILL under strace in the thorough tier"},
 	}
 }
+
+func init() {
+	props["C46"] = propSpec{
+		Engine: "bundlesim", Level: "exploration",
+		QuickS: 30, ThoroughS: 900, DetSamples: 48, DetSamplesT: 400,
+		Rule: "one run = 1-3 successive BundleLocal/BundleRemote calls (cache on or off, images may change between calls) on a generated SVG with 0-40 image references (duplicates, already-bundled data: URIs, local/remote mixed, HTML-escaped and regexp-metacharacter hrefs, prefix pairs, look-alike decoys) inside a synctest bubble. The tape decides the order in which workers start, perform each I/O step and hand over their result, every I/O outcome (EACCES, EIO mid-read, short reads, missing file, directory, HTTP 404/500, transport error, error mid-body, stall until the 1-minute request timeout, oversized body), caller cancellation and every clock advance. Non-trivial = at least two images or at least one fault fired; distinct = distinct hash of the full sequence of scheduling/fault decisions.",
+		Assumptions: []string{
+			"'eligible' is defined by the reference model as: not a data: URI, and http(s) URL for the remote call / anything else for the local call; the generator only emits hrefs that are unambiguous under this definition",
+			"the set (not the order) of references named in the error is compared; the MIME type of a data URI must be the served Content-Type when one was served (text/xml -> image/svg+xml accepted) and non-empty otherwise",
+			"a call that the simulator cancelled, or that hit the documented 5-minute limit, may return with any subset of the successful replacements applied (each applied completely), but must return an error if images are missing",
+			"workers that outlive a cancelled call are run to completion (without new faults) before the next call of the same run starts",
+		},
+		RealStub: map[string]string{"lib/imgbundler (bundle, runWorkers, worker, httpGet, cache)": "real", "net/http client": "real client over a simulated RoundTripper", "HTTP servers": "stub (tape-driven responses and body chunking)", "file system": "real kernel on a tmp sandbox with tape-driven fault points at openat/read", "clock, timers, context deadlines": "synctest fake clock", "goroutine scheduling": "simulator (park points worker.start/worker.done + every I/O step)", "map iteration / select order": "runtime seam, salted per run"},
+	}
+}
